@@ -32,9 +32,12 @@ CountersWith(cb, hi, fill) ==
 PropsWith(out) == [Setup.props0 EXCEPT ![Setup.wkcOff + 1] = IF out THEN 1 ELSE 0]
 Word4(bytes, off) == SubSeq(bytes, off + 1, off + 4)
 
+(* what get_prandom_u32 / ktime hand out: 0 unless the set-up names another value.  The property speaks about every
+   value, so the check computes the table for 0 and, where machine and kernel differ, for all-ones too            *)
+OrcOf == IF "orc" \in DOMAIN Setup THEN <<Setup.orc, Setup.orc, Setup.orc, Setup.orc>> ELSE <<W0>>
 CaseOf(pkt, cb, hi, fill, reg, out) ==
     [programs |-> Setup.programs, entry |-> 1, maps |-> Setup.maps,
-     progs |-> IF reg THEN Setup.progsReg ELSE Setup.progsUnreg, orc |-> <<W0>>, pkt |-> pkt,
+     progs |-> IF reg THEN Setup.progsReg ELSE Setup.progsUnreg, orc |-> OrcOf, pkt |-> pkt,
      arr |-> <<[fd |-> Setup.cmap, bytes |-> SubSeq(CountersWith(cb, hi, fill), 1, Setup.countersSize)],
                [fd |-> Setup.pmap, bytes |-> PropsWith(out)]>>,
      hash |-> <<>>, fuel |-> 2000]
